@@ -34,6 +34,40 @@ def make_solver(hyps, goal):
     return s
 
 
+def discharge_group(obs: list, use_cvc5=True, cvc5_ms=20000):
+    """Obligations that share one path (identical hypothesis list) are discharged on one
+    incremental solver (push / goal / pop): the hypotheses are asserted once."""
+    if not obs:
+        return
+    if len(obs) == 1:
+        discharge(obs[0], use_cvc5, cvc5_ms)
+        return
+    s = z3.SimpleSolver()
+    s.set("auto_config", False)
+    s.set("smt.mbqi", False)
+    s.set("rlimit", RLIMIT)
+    s.set("timeout", WALL_MS)
+    s.add(base_axioms())
+    s.add(obs[0].hyps)
+    for ob in obs:
+        t0 = time.time()
+        s.push()
+        s.add(z3.Not(ob.goal))
+        try:
+            r = s.check()
+        except z3.Z3Exception:
+            r = None
+        if r == z3.unsat:
+            ob.status, ob.backend = "proved", "z3"
+            ob.time = time.time() - t0
+            s.pop()
+            continue
+        s.pop()
+        # anything not proved incrementally is retried on a fresh solver (and cvc5)
+        discharge(ob, use_cvc5, cvc5_ms)
+        ob.time += time.time() - t0
+
+
 def discharge(ob: Obligation, use_cvc5=True, cvc5_ms=20000) -> Obligation:
     t0 = time.time()
     s = make_solver(ob.hyps, ob.goal)
